@@ -136,3 +136,58 @@ def check(R, F):
     else:
         R.bad('dedup', 'rr::rdata_set::RdataSetOwned::insert|compares-with-equals', ins.where(), 'expected exactly one Rdata::equals call, found %d' % len(eqc))
     R.floor('dedup', 5)
+    check_member_iterator(R, F)
+
+
+def check_member_iterator(R, F):
+    """(d) The scan in insert sees every stored member: <rdata_set::Iter as Iterator>::next gives up (returns None) only
+    when fewer than two octets remain or the member's declared length does not fit in what remains.  Decided at every
+    None return: the facts in force there -- including WHY the fallible call on that path failed (failure
+    postconditions of slice::get / try_into / checked arithmetic) -- must contradict
+    `remaining >= 2  and  declared length + 2 <= remaining`."""
+    from qv import cases
+    from qv.bounds import Analyzer, add, le, lin
+    from rules import e5
+    cand = [gp for gp in F.fns if gp.startswith('<rr::rdata_set::Iter') and gp.endswith('as std::iter::Iterator>::next')]
+    if len(cand) != 1:
+        R.bad('member-scan', 'rr::rdata_set::Iter::next|anchor', '', 'cannot find the member iterator of RdataSet (found %d candidates)' % len(cand))
+        return
+    it = F.fn(cand[0])
+    A = Analyzer(it, F, e5.make_summary(F))
+    # the declared length: the u16 read from the first two octets
+    reads = [(b, t) for b, t in it.calls() if re.search(r'<impl u16>::from_(ne|le|be)_bytes$', callee_name(t))]
+    if len(reads) != 1 or reads[0][1]['dest']['p']:
+        R.bad('member-scan', it.gpath + '|declared-length', it.where(), 'expected exactly one u16::from_*_bytes call that reads the length prefix, found %d: shape not recognised' % len(reads))
+        return
+    decl = lin(A.atom_local(reads[0][1]['dest']['l']))
+    curs = [f for f in F.struct('rr::rdata_set::Iter')['variants'][0]['fields']] if 'rr::rdata_set::Iter' in F.structs else []
+    rem = lin('len:(*(*_1).cursor)')
+    spec = [le(lin(c=2), rem), le(add(decl, lin(c=2)), rem)]
+    sites = []
+    for (b, i, kind, node) in it.defs().get(0, []):
+        if it.blocks[b]['cleanup']:
+            continue
+        if kind == 'assign' and node['rv']['k'] == 'agg' and node['rv']['def'].endswith('Option::None'):
+            sites.append((b, i))
+        elif kind == 'call' and 'FromResidual' in callee_name(node):
+            sites.append((b, None))
+        elif kind == 'assign' and node['rv']['k'] == 'agg' and node['rv']['def'].endswith('Option::Some'):
+            continue
+        else:
+            R.bad('member-scan', it.gpath + '|returns', it.where(b), 'a return value of Iter::next is neither Some(..), None nor a `?` residual: shape not recognised')
+            return
+    if not sites:
+        R.bad('member-scan', it.gpath + '|returns', it.where(), 'no None return found in Iter::next (anchor)')
+        return
+    # the length atom used by the code must be the one the specification names
+    used = any('len:(*(*_1).cursor)' in c for b, t in it.calls() if callee_name(t) == 'core::slice::<impl [T]>::get' for alt in (e5.fail_get(A, b, t) or []) for c in alt) \
+        or any('len:(*(*_1).cursor)' in c for (b, i) in sites for c in A.facts_at(b, i))
+    if not used:
+        R.bad('member-scan', it.gpath + '|cursor', it.where(), 'no bounds fact about self.cursor is visible in Iter::next: shape not recognised')
+        return
+    for k, (b, i) in enumerate(sites):
+        more = e5.fail_alternatives(A, b, i)
+        ok, why = cases.decide_at(A, b, i, extra=spec, contradiction=True, more_choices=more)
+        R.require(ok, 'member-scan', it.gpath + '|none-only-at-end#%d' % k, it.where(b), 'None only when < 2 octets remain or the declared length does not fit',
+                  'Iter::next returns None at %s although two or more octets remain and the declared length fits (%s): a stored member is skipped, so insert\'s duplicate scan and every reader miss it' % (it.where(b), why))
+    R.floor('member-scan', 2)
